@@ -24,6 +24,10 @@ type satom struct {
 	// where the atom's value is consumed in the function that produced it (for guard checks)
 	useFn    *ssa.Function
 	useBlock *ssa.BasicBlock
+	// where the name is generated from the point of view of the function that consumes it (the namegen call itself, or
+	// the call of the repository helper that returns it)
+	genFn    *ssa.Function
+	genBlock *ssa.BasicBlock
 }
 
 type sstr []satom
@@ -122,7 +126,31 @@ func (c *Ctx) symEval(fn *ssa.Function, v ssa.Value, useBlock *ssa.BasicBlock, s
 	case *ssa.Extract:
 		if call, ok := x.Tuple.(*ssa.Call); ok && x.Index == 0 {
 			if f := call.Call.StaticCallee(); f != nil && f.Pkg != nil && f.Pkg.Pkg.Path() == namegenPath && strings.HasPrefix(f.Name(), "Random") {
-				return []sstr{{satom{kind: "name", text: f.Name(), call: call, useFn: fn, useBlock: useBlock}}}
+				return []sstr{{satom{kind: "name", text: f.Name(), call: call, useFn: fn, useBlock: useBlock, genFn: fn, genBlock: call.Block()}}}
+			}
+			// a fixture helper that returns a generated name: its successful returns, evaluated in the helper
+			if h := call.Call.StaticCallee(); h != nil && len(h.Blocks) > 0 && depth < 10 {
+				if rel, ok := c.P.PkgOf(h); ok && rel == "testutil" && isBasic(h.Signature.Results().At(0).Type(), types.String) {
+					errIdx := core.ErrResultIndex(h.Signature)
+					var out []sstr
+					for _, ret := range core.Returns(h) {
+						rr := core.ResolvedResults(ret)
+						if errIdx >= 0 && !core.IsNilConst(rr[errIdx]) {
+							continue
+						}
+						for _, alt := range c.symEval(h, rr[0], ret.Block(), map[ssa.Value]bool{}, depth+1) {
+							for i := range alt {
+								if alt[i].kind == "name" {
+									alt[i].genFn, alt[i].genBlock = fn, call.Block()
+								}
+							}
+							out = append(out, alt)
+						}
+					}
+					if len(out) > 0 {
+						return out
+					}
+				}
 			}
 		}
 	case *ssa.Phi:
@@ -309,7 +337,7 @@ func c19(c *Ctx) {
 			if !ok || call.Call.StaticCallee() == nil || call.Call.StaticCallee().Name() != "isDupe" || len(call.Call.Args) != 2 || call.Call.Args[1] != nv {
 				continue
 			}
-			if !strings.Contains(c.varPath(call.Call.Args[0], 0), "children") {
+			if sl, ok := call.Call.Args[0].Type().Underlying().(*types.Slice); !ok || !strings.Contains(types.TypeString(sl.Elem(), nil), "DirEntry") {
 				continue
 			}
 			if core.GuardedBy(nm.useBlock, func(cond ssa.Value) (bool, bool) {
@@ -337,7 +365,7 @@ func c19(c *Ctx) {
 			}
 		}
 		if consBlock != nil && core.InCycle(consBlock) {
-			if u.fn != nm.call.Parent() || !sameCycle(consBlock, nm.call.Block()) {
+			if u.fn != nm.genFn || !sameCycle(consBlock, nm.genBlock) {
 				bad = append(bad, "the name is consumed inside a loop that does not generate a new name: several children can receive the same name")
 			}
 		}
